@@ -2,6 +2,7 @@
   C02 — Concurrent commands are serializable; acknowledged writes are never lost.
 -/
 import ErgoProofs.Lemmas.ConcReach
+import ErgoProofs.Lemmas.ProgramThm
 namespace Ergo
 open Proc
 
@@ -56,5 +57,31 @@ theorem C02_one_section_per_command (log : List Event) (env : Env) (req : Reques
       simp [hs, hr] at h ⊢
       subst h
       trivial
+
+
+/-! ### the observed system-call programs are lock sections (ErgoModel.Program, checked against strace on every run: T3) -/
+
+/-- a program accepted by `writerOK` changes the log only strictly between its successful `flock(LOCK_EX|LOCK_NB)` and its `flock(LOCK_UN)`,
+    and looks at the log's content only after it holds the lock -/
+theorem C02_program_mutations_inside_the_lock (p : List Program.Call) (h : Program.writerOK p = true) :
+    ∃ s, Program.split p = some s ∧ (∀ c ∈ s.before, Program.mutatesLog c = false) ∧ (∀ c ∈ s.after, Program.mutatesLog c = false) ∧
+      (∀ c ∈ s.before, Program.readsLog c = false) :=
+  Program.writerOK_mutations_inside p h
+
+/-- inside the section: read before change, at most one write(2) to the live log, no in-place truncation or unlink -/
+theorem C02_program_body (p : List Program.Call) (h : Program.writerOK p = true) :
+    ∃ s, Program.split p = some s ∧ Program.logWrites s.inside ≤ 1 ∧ Program.Call.truncate .log ∉ s.inside ∧ Program.Call.unlink .log ∉ s.inside ∧
+      (∀ pre c post, s.inside = pre ++ c :: post → Program.mutatesLog c = true → (∀ x ∈ pre, Program.mutatesLog x = false) → ∃ r ∈ pre, Program.readsLog r = true) :=
+  Program.writerOK_body p h
+
+/-- so the steps of the process model (`Proc.Step`: lockOk · read · write | decideErr · unlock) are an abstraction of it -/
+theorem C02_program_refines_the_process_model (p : List Program.Call) (h : Program.writerOK p = true) :
+    (Program.abstract p = [.lockOk, .read, .write, .unlock] ∨ Program.abstract p = [.lockOk, .read, .noWrite, .unlock] ∨ Program.abstract p = [.lockOk, .noWrite, .unlock]) :=
+  Program.writerOK_abstract p h
+
+/-- a process that found the lock taken neither read nor wrote: `Proc.Step.lockBusy` -/
+theorem C02_busy_program_does_nothing (p : List Program.Call) (h : Program.busyOK p = true) :
+    Program.abstract p = [.lockBusy] ∧ (∀ c ∈ p, Program.mutatesLog c = false ∧ Program.readsLog c = false) :=
+  Program.busyOK_abstract p h
 
 end Ergo
